@@ -355,21 +355,21 @@ def generate(rep, tier, rng):
     rep.design_runs.append({"what": "transcribed get_info_virtual satisfies Contained (prediction): %s" % ("yes" if r3.ok else "NO: " + str(r3.violated)),
                             "generated": r3.generated, "distinct": r3.distinct})
     vlib.log("[C16] design checks %.1fs" % (time.time() - t0))
-    # ---- 2. a small bounded product, replayed completely
-    g = vlib.tlc("Vfs_MC", mc_cfg("gen_small", "product", emit=True, maxmaps=2, nroots=2, prefixes=("", "a"), shapes=("empty", "full"),
-                                  maxlen=2, bases=("", "out") if quick else ("", "out", "r1", "r3"), invariants=[]),
-                 workers=vlib.NCPU, timeout_s=1500, xmx="8g")
-    if not g.ok:
-        raise vlib.MachineryError("generator (small product) failed: %s" % (g.error or g.violated))
-    rep.add_tlc(g, "Vfs_MC generator: complete product of the small space (every case emitted)")
-    small = [json.loads(p) for p in g.prints]
-    # r3 is never mapped in the small space: its tree only matters as 'outside'; keep one shape to stay small
-    small = [c for c in small if len(c["trees"]["r3"]) > 0]
-    rep.exhaustive = True
+    # ---- 2. two small bounded products, replayed completely (r3 is never mapped there: it keeps the full shape, as 'outside')
     cases = []
-    for i, c in enumerate(small):
-        cases.append({"id": "s%d" % i, "mappings": c["mappings"], "trees": c["trees"], "req": dict(c["req"], style=STYLES[i % 3]),
-                      "cur": c["cur"], "style": STYLES[i % 3]})
+    for nm, prefixes in (("a", ("", "a")), ("ab", ("", "ab"))):
+        g = vlib.tlc("Vfs_MC", mc_cfg("gen_small_" + nm, "product", emit=True, maxmaps=2, nroots=2, prefixes=prefixes, shapes=("empty", "full"),
+                                      maxlen=2 if quick else 3, bases=("",) if quick else ("", "out", "r1", "r3"), invariants=[]),
+                     workers=vlib.NCPU, timeout_s=1500, xmx="8g")
+        if not g.ok:
+            raise vlib.MachineryError("generator (small product) failed: %s" % (g.error or g.violated))
+        rep.add_tlc(g, "Vfs_MC generator: complete product of the small space with prefixes %s (every case emitted)" % (prefixes,))
+        small = [c for c in (json.loads(p) for p in g.prints) if len(c["trees"]["r3"]) > 0]
+        for c in small:
+            i = len(cases)
+            cases.append({"id": "s%d" % i, "mappings": c["mappings"], "trees": c["trees"], "req": dict(c["req"], style=STYLES[i % 3]),
+                          "cur": c["cur"], "style": STYLES[i % 3]})
+    rep.exhaustive = True
     rep.extra["small_space_cases"] = len(cases)
     # ---- 3. the large space: configurations x requests enumerated by TLC, product sampled
     gc = vlib.tlc("Vfs_MC", mc_cfg("gen_cfgs", "configs", emit=True, maxmaps=3, nroots=3, shapes=("empty", "full", "deep", "top"), invariants=[]),
